@@ -243,3 +243,127 @@ func paramRootOf(v ssa.Value, depth int) *ssa.Parameter {
 	}
 	return nil
 }
+
+// versionImmutable: a server version is the tuple its string denotes for as long as it is used. The fields of Version
+// are stored only where a version is being built — in the parser, or into a value still local to the function that
+// makes it (composite literals, the package-level gate constants) — never through a pointer to a version somebody
+// else holds (a "series" helper zeroing Patch and Build on its receiver changes the version the gates are asked about).
+func versionImmutable(c *Ctx, id string) {
+	w := c.W
+	parser := w.Func("couchbase", "nodeVersionFromString")
+	c.need(parser != nil, id, "couchbase.nodeVersionFromString")
+	var vt *types.Struct
+	var vnamed types.Type
+	if res := parser.Signature.Results(); res.Len() > 0 {
+		t := res.At(0).Type()
+		if p, ok := t.Underlying().(*types.Pointer); ok {
+			t = p.Elem()
+		}
+		vnamed = t
+		vt, _ = t.Underlying().(*types.Struct)
+	}
+	if vt == nil {
+		c.Undecided(id, "version-writers", parser.Pos(), "the parser's result is not a struct (or a pointer to one)")
+		return
+	}
+	n := 0
+	var bad []string
+	for j := 0; j < vt.NumFields(); j++ {
+		for _, fs := range w.fieldStores(vt.Field(j)) {
+			n++
+			if fs.Fn == parser || fs.Fn.Name() == "init" {
+				continue
+			}
+			if a := rootAlloc(fs.Store.Addr); a != nil && a.Parent() == fs.Fn {
+				continue
+			}
+			bad = append(bad, fname(fs.Fn)+": "+w.Origin(fs.Store.Addr)+" ← "+w.Origin(fs.Store.Val)+" @"+w.pos(fs.Store.Pos()))
+		}
+	}
+	for _, fn := range w.ModFuncs {
+		allInstrs(fn, func(in ssa.Instruction) {
+			if st, ok := in.(*ssa.Store); ok && types.Identical(st.Val.Type(), vnamed) {
+				n++
+				if _, isAlloc := st.Addr.(*ssa.Alloc); isAlloc || fn.Name() == "init" {
+					return
+				}
+				if _, isGlobal := st.Addr.(*ssa.Global); isGlobal {
+					bad = append(bad, fname(fn)+": package-level version overwritten @"+w.pos(st.Pos()))
+					return
+				}
+				if a := rootAlloc(st.Addr); a != nil && a.Parent() == fn {
+					return
+				}
+				bad = append(bad, fname(fn)+": a version held elsewhere is overwritten whole @"+w.pos(st.Pos()))
+			}
+		})
+	}
+	sort.Strings(bad)
+	c.Check(len(bad) == 0, id, "version-writers", parser.Pos(), fmt.Sprintf("the %d stores into versions build a value in the parser, in a literal or in a package initialiser", n),
+		"a version somebody else holds is modified in place — the tuple the gates compare is no longer the one the server's string denotes: "+strings.Join(bad, "; "))
+	c.Check(n >= 4, id, "version-writers-seen", parser.Pos(), fmt.Sprintf("%d stores into version fields seen (the parser's four at least)", n), fmt.Sprintf("only %d stores into version fields found: the parser is expected to fill four", n))
+
+	// the parser keeps what it parsed: no integer conversion in it narrows (a component ≥ 256 wrapping in a uint8
+	// field sorts 5.260.0 below 5.5.0), and every numeric field of the version is as wide as int
+	sizes := types.SizesFor("gc", "amd64")
+	isInt := func(t types.Type) bool {
+		b, ok := t.Underlying().(*types.Basic)
+		return ok && b.Info()&types.IsInteger != 0
+	}
+	var narrow []string
+	nc := 0
+	allInstrs(parser, func(in ssa.Instruction) {
+		if cv, ok := in.(*ssa.Convert); ok && isInt(cv.Type()) && isInt(cv.X.Type()) {
+			nc++
+			if sizes.Sizeof(cv.Type()) < sizes.Sizeof(cv.X.Type()) {
+				narrow = append(narrow, fmt.Sprintf("%s → %s @%s", cv.X.Type(), cv.Type(), w.pos(cv.Pos())))
+			}
+		}
+	})
+	for j := 0; j < vt.NumFields(); j++ {
+		if f := vt.Field(j); isInt(f.Type()) && sizes.Sizeof(f.Type()) < sizes.Sizeof(types.Typ[types.Int]) {
+			narrow = append(narrow, fmt.Sprintf("field %s is %s", f.Name(), f.Type()))
+		}
+	}
+	sort.Strings(narrow)
+	c.Check(len(narrow) == 0, id, "version-width", parser.Pos(), fmt.Sprintf("no narrowing: %d integer conversions in the parser, every numeric field of the version at least as wide as int", nc),
+		"the parsed components do not fit what holds them — a large component wraps and the version sorts below smaller ones: "+strings.Join(narrow, "; "))
+}
+
+// onceSubscriptionsAlone: the event bus (asaskevich/EventBus) removes a once-only handler by its position in the live
+// handler list while it walks a copy of that list: with two once-only handlers on one topic the second removal hits
+// whatever moved into that position — the membership listener subscribed after them — and later announcements no
+// longer reach it. At most one once-only subscription per topic exists in the module (today: none).
+func onceSubscriptionsAlone(c *Ctx, id string) {
+	w := c.W
+	byTopic := map[string][]string{}
+	n := 0
+	for _, fn := range w.ModFuncs {
+		allInstrs(fn, func(in ssa.Instruction) {
+			ci, ok := in.(ssa.CallInstruction)
+			if !ok {
+				return
+			}
+			cc := ci.Common()
+			if !cc.IsInvoke() || cc.Method.Pkg() == nil || !strings.Contains(cc.Method.Pkg().Path(), "EventBus") {
+				return
+			}
+			n++
+			if strings.HasPrefix(cc.Method.Name(), "SubscribeOnce") && len(cc.Args) > 0 {
+				t := w.Origin(cc.Args[0])
+				byTopic[t] = append(byTopic[t], fname(fn)+" @"+w.pos(in.Pos()))
+			}
+		})
+	}
+	var bad []string
+	for t, sites := range byTopic {
+		if len(sites) > 1 {
+			sort.Strings(sites)
+			bad = append(bad, t+": "+strings.Join(sites, ", "))
+		}
+	}
+	sort.Strings(bad)
+	c.Check(len(bad) == 0, id, "once-subscriptions", 0, fmt.Sprintf("%d uses of the event bus inspected: no topic has two once-only subscriptions", n),
+		"several once-only handlers on one topic — the bus removes the second by a stale position and unsubscribes the handler that follows it (the membership listener): "+strings.Join(bad, "; "))
+	c.Check(n >= 8, id, "bus-uses-seen", 0, fmt.Sprintf("%d uses of the event bus seen", n), fmt.Sprintf("only %d uses of the event bus found (8 confirmed by hand)", n))
+}
